@@ -12,16 +12,72 @@ belongs to the library or to this harness: a lane is never parked inside a callb
 dependency (antlr, logging, xml, json, importlib ...), which may hold one of its real locks.  Every
 schedule produced this way is one the interpreter could produce by itself with free-running
 threads (the converse does not hold: switches inside dependencies are not sampled).
+
+Locks of the library itself (it has none today; a maintainer may add one to make shared state
+safe) are intercepted synchronisation points: install_cooperative_locks() replaces the
+threading.Lock / threading.RLock factories before the library is imported, and a lane that finds
+such a lock taken hands the baton to another lane instead of blocking while everybody else is
+parked.  The scheduler's own batons are raw _thread locks and never go through that seam.
 """
+import _thread
 import os
 import sys
 import threading
 
 HERE = os.path.dirname(os.path.abspath(__file__))
+ACTIVE = [None]          # the scheduler that currently runs lanes, if any
+_REAL_LOCK = threading.Lock
+_REAL_RLOCK = threading.RLock
+
+
+class CoopLock:
+    """threading.Lock / RLock as seen by code imported after install_cooperative_locks()."""
+
+    def __init__(self, real):
+        self._real = real
+        self._owner = None      # lane that took the lock under a scheduler (None otherwise)
+
+    def acquire(self, blocking=True, timeout=-1):
+        sch = ACTIVE[0]
+        if sch is None or not sch.is_lane_with_baton():
+            return self._real.acquire(blocking, timeout)
+        if not blocking:
+            got = self._real.acquire(False)
+            if got:
+                self._owner = sch.current
+            return got
+        while not self._real.acquire(False):
+            if not sch.yield_blocked(self._owner):
+                # nobody else can run: block for real (a stall is detected by the scheduler)
+                return self._real.acquire(True, timeout)
+        self._owner = sch.current
+        return True
+
+    def release(self):
+        self._owner = None
+        self._real.release()
+
+    def locked(self):
+        return self._real.locked()
+
+    def __enter__(self):
+        self.acquire()
+        return True
+
+    def __exit__(self, *exc):
+        self.release()
+
+    def __getattr__(self, name):        # _is_owned, _release_save ... (Condition support)
+        return getattr(self._real, name)
+
+
+def install_cooperative_locks():
+    threading.Lock = lambda: CoopLock(_REAL_LOCK())
+    threading.RLock = lambda: CoopLock(_REAL_RLOCK())
 
 
 class Scheduler:
-    def __init__(self, pkg_dir, switches, first=0, wall=60.0, transparent=()):
+    def __init__(self, pkg_dir, switches, first=0, wall=30.0, transparent=()):
         self.pkg = pkg_dir.rstrip(os.sep) + os.sep
         # pure-Python framework code without locks of its own (flamapy.core): its frames may sit
         # between library frames (Metrics.execute() calling back into FMMetrics) without making
@@ -34,12 +90,15 @@ class Scheduler:
         self.countdown = None
         self.pick = 0
         self.current = None
-        self.sems = []
+        self.batons = []
         self.done = []
-        self.main = threading.Semaphore(0)
+        self.idents = {}
+        self.main = _thread.allocate_lock()
+        self.main.acquire()
         self.stalled = False
         self.log = []          # (step, from lane, to lane, "file:line") of every switch made
         self.deferred = 0      # countdown expired at a point where a switch was not allowed
+        self.lock_yields = 0   # a lane found a library lock taken and handed the baton on
         self.errors = []
         self._arm()
 
@@ -86,6 +145,12 @@ class Scheduler:
     def _others(self, me):
         return [i for i in range(len(self.done)) if i != me and not self.done[i]]
 
+    def _hand_over(self, me, nxt):
+        self.current = nxt
+        self.batons[nxt].release()
+        if not self.batons[me].acquire(True, self.wall):
+            self.stalled = True
+
     def _switch(self, frame):
         me = self.current
         others = self._others(me)
@@ -96,14 +161,38 @@ class Scheduler:
         nxt = others[pick % len(others)]
         self.log.append((self.steps, me, nxt, "%s:%d" % (
             os.path.basename(frame.f_code.co_filename), frame.f_lineno)))
-        self.current = nxt
-        self.sems[nxt].release()
-        if not self.sems[me].acquire(timeout=self.wall):
+        self._hand_over(me, nxt)
+
+    # ------------------------------------------------------------------ library locks
+    def is_lane_with_baton(self):
+        if self.stalled or self.current is None:
+            return False
+        return self.idents.get(_thread.get_ident()) == self.current
+
+    def yield_blocked(self, owner=None):
+        """The running lane cannot take a library lock: let its holder run (or, when the holder
+        is not a lane, the next lane in turn).  False when no other lane is left to run."""
+        me = self.current
+        others = self._others(me)
+        if not others or self.stalled:
+            return False
+        self.lock_yields += 1
+        if self.lock_yields > 10000:
             self.stalled = True
+            return False
+        if owner in others:
+            nxt = owner
+        else:
+            later = [i for i in others if i > me]
+            nxt = later[0] if later else others[0]
+        self.log.append((self.steps, me, nxt, "lock"))
+        self._hand_over(me, nxt)
+        return not self.stalled
 
     # ------------------------------------------------------------------ lanes
     def _lane(self, idx, body):
-        self.sems[idx].acquire()
+        self.idents[_thread.get_ident()] = idx
+        self.batons[idx].acquire()
         sys.settrace(self._global_trace)
         try:
             body()
@@ -117,8 +206,9 @@ class Scheduler:
                 pass
             elif others:
                 self.current = others[0]
-                self.sems[others[0]].release()
+                self.batons[others[0]].release()
             else:
+                self.current = None
                 self.main.release()
 
     def run(self, bodies):
@@ -126,24 +216,34 @@ class Scheduler:
         schedule stalled (a lane blocked on something a parked lane holds): the caller then
         discards the outcome, it says nothing about the library."""
         n = len(bodies)
-        self.sems = [threading.Semaphore(0) for _ in range(n)]
+        self.batons = []
+        for _ in range(n):
+            lock = _thread.allocate_lock()
+            lock.acquire()
+            self.batons.append(lock)
         self.done = [False] * n
         threads = [threading.Thread(target=self._lane, args=(i, body), daemon=True,
                                     name="lane-%d" % i) for i, body in enumerate(bodies)]
-        for t in threads:
-            t.start()
-        self.current = self.first % n
-        self.sems[self.current].release()
-        if not self.main.acquire(timeout=self.wall):
-            self.stalled = True
-        if self.stalled:
-            # let everybody run freely to the end so that no thread is left parked
-            for sem in self.sems:
-                sem.release()
-                sem.release()
+        ACTIVE[0] = self
+        try:
+            for t in threads:
+                t.start()
+            self.current = self.first % n
+            self.batons[self.current].release()
+            if not self.main.acquire(True, self.wall * 2):
+                self.stalled = True
+            if self.stalled:
+                # let everybody run freely to the end so that no thread is left parked
+                for lock in self.batons:
+                    try:
+                        lock.release()
+                    except RuntimeError:
+                        pass
+                for t in threads:
+                    t.join(timeout=self.wall)
+                return False
             for t in threads:
                 t.join(timeout=self.wall)
-            return False
-        for t in threads:
-            t.join(timeout=self.wall)
-        return True
+            return True
+        finally:
+            ACTIVE[0] = None
